@@ -141,47 +141,55 @@ def splits(stretches, rng=None):
         yield [("bath0", a), ("bath1", b)]
 
 
-def run(ctx):
+def part(ctx, k, nparts):
+    """one slice of the enumeration (stretch pairs with first stretch index = k mod nparts) plus a share of the sampled layouts"""
     rng = ctx.rng
     known = next((e for e in core.load_known("C16") if e["id"] == KNOWN_ID and e["status"] == "known"), None)
-    d0 = core.VERIF / "corpus" / "C16"
-    for p in sorted(d0.glob("*.json")) if d0.exists() else []:
-        c = json.loads(p.read_text())
-        check(ctx, c["xs"], [(k, [tuple(s) for s in v]) for k, v in c["dict"]], tuple(c.get("missing", ())), api=True, known=known)
-        ctx.count("corpus")
     n = 4
     xs = [float(i) for i in range(n)]
     S = secgen.all_stretches(n)
-    # one stretch, exhaustively (incl. reversed and empty)
-    for s in S:
-        check(ctx, xs, [("bath0", [s])], api=(rng.random() < 0.1), known=known)
+    if k == 0:
+        d0 = core.VERIF / "corpus" / "C16"
+        for p in sorted(d0.glob("*.json")) if d0.exists() else []:
+            c = json.loads(p.read_text())
+            check(ctx, c["xs"], [(kk, [tuple(s) for s in v]) for kk, v in c["dict"]], tuple(c.get("missing", ())), api=True, known=known)
+            ctx.count("corpus")
+        for s in S:   # one stretch, exhaustively (incl. reversed and empty)
+            check(ctx, xs, [("bath0", [s])], api=(rng.random() < 0.1), known=known)
     # two stretches, exhaustively, both splits
-    for s, t in itertools.product(S, repeat=2):
-        for d in splits([s, t]):
-            check(ctx, xs, d, api=(rng.random() < 0.01), known=known)
-    # three (thorough: exhaustive on the 4-point grid in one bath + sampled splits; quick: sampled)
-    triples = itertools.product(S, repeat=3)
+    for i, s in enumerate(S):
+        if i % nparts != k:
+            continue
+        for t in S:
+            for d in splits([s, t]):
+                check(ctx, xs, d, api=(rng.random() < 0.01), known=known)
+    # three: sampled (quick) / exhaustive in one bath + sampled splits (thorough)
     if ctx.quick:
-        triples = (tuple(rng.choice(S) for _ in range(3)) for _ in range(4000))
+        triples = (tuple(rng.choice(S) for _ in range(3)) for _ in range(4000 // nparts))
+    else:
+        triples = (tr for j, tr in enumerate(itertools.product(S, repeat=3)) if j % nparts == k)
     for tr in triples:
         ds_ = list(splits(list(tr)))
         check(ctx, xs, ds_[rng.randrange(len(ds_))], api=(rng.random() < 0.005), known=known)
-    # four stretches sampled, 5-point grid
     xs5 = [float(i) for i in range(5)]
     S5 = secgen.all_stretches(5)
-    for _ in range(1500 if ctx.quick else 30000):
+    for _ in range((1500 if ctx.quick else 30000) // nparts):
         st = [rng.choice(S5) for _ in range(4)]
         nb = rng.randint(1, 3)
-        d = [("bath%d" % k, []) for k in range(nb)]
+        d = [("bath%d" % b, []) for b in range(nb)]
         for s in st:
             d[rng.randrange(nb)][1].append(s)
         d = [kv for kv in d if kv[1]] or [("bath0", st)]
         check(ctx, xs5, d, api=(rng.random() < 0.01), known=known)
-    # random larger layouts on regular / irregular grids, some with a missing key
-    for _ in range(400 if ctx.quick else 6000):
+    for _ in range((400 if ctx.quick else 6000) // nparts):
         xs_, d = secgen.random_layout(rng, max_stretches=6)
         missing = (d[0][0],) if rng.random() < 0.1 else ()
         check(ctx, xs_, d, missing=missing, api=(rng.random() < 0.1), known=known)
+
+
+def run(ctx):
+    nparts = 8
+    core.parallel_cases(ctx, part, [(k, nparts) for k in range(nparts)], jobs=8)
 
 
 def search(ctx):
